@@ -472,6 +472,8 @@ class MBXMLDocument:
                     t: MBXMLToken = copy(tokendef_setting)
                     t.token_id = tokendef_id
                     t.value = value
+                    # the shallow copy shares the attribute list with the token definition
+                    t.attributes = list(t.attributes)
 
                     for attr_inst in attributes_to_set:
                         # remove attr id from list
